@@ -29,7 +29,7 @@ CONSTANTS
     Dev           \* set of named deviations from the design
 
 DevNames == {"absFinalClamp", "dirFromSystemSpan", "keepRolledBackPiece", "frontInsert", "dedupByPosition",
-             "noTrimOnFailure", "resetKeepsEvents", "commitBeforeAccept", "clampAdoptsDt"}
+             "noTrimOnFailure", "resetKeepsEvents", "commitBeforeAccept", "clampAdoptsDt", "recordStepTooShort"}
 ASSUME Dev \subseteq DevNames
 
 Abs(x) == IF x < 0 THEN -x ELSE x
@@ -117,6 +117,27 @@ Step ==
                                        !.pc = IF f.evOn THEN "events" ELSE "post"]]
             /\ dt' = d
     /\ UNCHANGED <<t0, tf, dt0, status, events, ncalls>> /\ last' = "Step"
+
+(***************************************************************************)
+(* the controller has shrunk the step below the resolution of the time axis *)
+(* (one tick here, one rounding unit of t in the code): t + dT = t.  The run *)
+(* fails (step size underflow); recording the step would never end.          *)
+(***************************************************************************)
+Underflow ==
+    /\ ADAPTIVE /\ ~Idle /\ Top.pc = "loop" /\ Cur # Top.target /\ ~Top.terminated
+    /\ LET f == Top
+           d == FixDir(dt, f.target, Cur)
+           c == ChooseStep(f, d)
+       IN /\ Abs(c.h) = 1
+          /\ IF "recordStepTooShort" \in Dev
+             THEN /\ Len(rows) < MAXROWS
+                  /\ rows' = Append(rows, Cur)
+                  /\ sol' = IF DENSE \/ f.evOn THEN Append(sol, [a |-> Cur, b |-> Cur]) ELSE sol
+                  /\ frames' = [frames EXCEPT ![Len(frames)] = [f EXCEPT !.a = Cur, !.b = Cur, !.final = c.final, !.newDt = d, !.pc = "post"]]
+                  /\ dt' = d /\ status' = status /\ last' = "Step"
+             ELSE /\ frames' = << >> /\ status' = "failed"
+                  /\ UNCHANGED <<rows, sol, dt>> /\ last' = "Fault"
+    /\ UNCHANGED <<t0, tf, dt0, events, ncalls>>
 
 (***************************************************************************)
 (* event handling for the step [a, b] just committed                        *)
@@ -219,7 +240,7 @@ Reset ==
 Next ==
     \/ \E tg \in TARGETS \cup {tf}, evOn \in BOOLEAN, cbOn \in BOOLEAN :
             (evOn => ROOTS # {}) /\ (cbOn => CBDTS # {}) /\ Call(tg, evOn, cbOn)
-    \/ Step \/ HandleEvents \/ Post \/ Return \/ Fault \/ Reset
+    \/ Step \/ Underflow \/ HandleEvents \/ Post \/ Return \/ Fault \/ Reset
 
 Spec == Init /\ [][Next]_vars
 
